@@ -3,6 +3,8 @@
 package c04
 
 import (
+	"log"
+	"io"
 	"bytes"
 	"encoding/binary"
 	"encoding/hex"
@@ -351,6 +353,14 @@ func checkHeader(c headerCase) (string, bool) {
 		results["DecodeHeaderAndFileID"] = err
 		_, err = fit.Decode(bytes.NewReader(file))
 		results["Decode"] = err
+		// the verdict on a header does not depend on decode options
+		_, err = fit.Decode(bytes.NewReader(file), fit.WithLogger(log.New(io.Discard, "", 0)))
+		results["Decode with a logger"] = err
+		_, err = fit.Decode(bytes.NewReader(file), fit.WithUnknownFields(), fit.WithUnknownMessages())
+		results["Decode with the unknown options"] = err
+		fs, err := fit.DecodeChained(bytes.NewReader(file), fit.WithLogger(log.New(io.Discard, "", 0)))
+		_ = fs
+		results["DecodeChained with a logger"] = err
 		var dt [4]byte
 		copy(dt[:], c.DataType)
 		hs := fit.Header{Size: c.Size, ProtocolVersion: c.Proto, ProfileVersion: c.Profile, DataSize: uint32(len(body)), DataType: dt, CRC: stored}
